@@ -25,6 +25,7 @@ func checkC10(c *Ctx, r *Report) {
 	c10b(c, r)
 	c01StartSymbolFlow(c, r, "C10.c")
 	c10DirectiveWords(c, r, "C10.d")
+	c10DeclareDispatch(c, r, "C10.d")
 	c10CursorDiscipline(c, r, "C10.d")
 	c10TokenStartDiscipline(c, r, "C10.d")
 	c10SectionExtents(c, r)
